@@ -6,7 +6,8 @@
 //! `sinkval <kind> <cap> <type>:<value>`  `Encoder::new(sink).encode(value)` (= `minicbor::encode`) for a few concrete types
 //!
 //! kinds: `slice` (`&mut [u8]`), `cslice` (`Cursor<&mut [u8]>`), `carray` (`Cursor<[u8; N]>`, N = cap ≤ 40),
-//!        `cbox` (`Cursor<Box<[u8]>>`), `vec` (`Vec<u8>`), `io:<step>` (`Writer<Limited>`, a `std::io::Write`
+//!        `cbox` (`Cursor<Box<[u8]>>`), `vec` (`Vec<u8>`), `tovec[w][h|b|n]` (`minicbor::to_vec[_with]`, sinkval only; h: after failed
+//!        calls on this thread, b: after a big successful one, n: nested inside another `to_vec`), `io:<step>` (`Writer<Limited>`, a `std::io::Write`
 //!        accepting at most `step` bytes per `write` call and `cap` bytes in total; `write_all` is std's default loop).
 //!
 //! The buffer is filled with 0xEE and lies between two 16-byte canary regions (0xA5… / 0x5A…): inside one
@@ -113,19 +114,80 @@ fn drive<W: Write>(w: W, call: &Call) -> Option<(String, W)> {
             }
             Some((status, e.into_writer()))
         }
-        Call::Val(v) => encode_value(w, v)
+        Call::Val(v) => with_value(v, EncInto(w))
     }
 }
 
-/// `minicbor::encode(&value, sink)` (through `Encoder::encode`, so that the sink can be inspected afterwards)
-/// for a few concrete types: `u64:<n>` `i64:<n>` `str:<hex>` `bytes:<hex>` (ByteVec) `vecu16:<a,b,…|->`
-/// `optu32:<n|none>` `tuple:<u8>,<hex>,<0|1>` ((u8, String, bool)) `mapu8:<k=v,…|->` (BTreeMap<u8, u16>).
-fn encode_value<W: Write>(w: W, v: &str) -> Option<(String, W)> {
-    fn go<W: Write, T: minicbor::Encode<()>>(w: W, x: T) -> Option<(String, W)> {
-        let mut e = Encoder::new(w);
+/// A computation over "the value denoted by `<type>:<value>`", whatever its Rust type is.
+trait ValVisitor { type Out; fn visit<T: minicbor::Encode<()>>(self, x: T) -> Self::Out; }
+
+/// `minicbor::encode(&value, sink)` (through `Encoder::encode`, so that the sink can be inspected afterwards).
+struct EncInto<W>(W);
+impl<W: Write> ValVisitor for EncInto<W> {
+    type Out = (String, W);
+    fn visit<T: minicbor::Encode<()>>(self, x: T) -> (String, W) {
+        let mut e = Encoder::new(self.0);
         let st = match e.encode(x) { Ok(_) => "ok".to_string(), Err(x) => format!("err {}", eclass(&x)) };
-        Some((st, e.into_writer()))
+        (st, e.into_writer())
     }
+}
+
+/// writes one byte and then gives up with a message error (the only way `to_vec` can fail: `Vec` never does)
+struct GivesUp;
+impl<C> minicbor::Encode<C> for GivesUp {
+    fn encode<W: Write>(&self, e: &mut Encoder<W>, _: &mut C) -> Result<(), Error<W::Error>> {
+        e.u8(7)?;
+        Err(Error::message("giving up"))
+    }
+}
+
+/// `minicbor::to_vec` / `to_vec_with` (the growable-vector entry points of lib.rs).  `history`: 0 = nothing before;
+/// 1 = a failed `to_vec` and a failed `to_vec_with` on this thread first; 2 = a successful large `to_vec` first;
+/// 3 = the call is made from inside another `to_vec` (an `Encode` impl that embeds CBOR in CBOR).
+struct ToVec { history: u8, with: bool }
+struct Nested<'a, T>(&'a T, bool, std::cell::RefCell<Option<Result<Vec<u8>, String>>>);
+impl<'a, C, T: minicbor::Encode<()>> minicbor::Encode<C> for Nested<'a, T> {
+    fn encode<W: Write>(&self, e: &mut Encoder<W>, _: &mut C) -> Result<(), Error<W::Error>> {
+        e.array(2)?.u8(1)?;
+        let r = if self.1 { minicbor::to_vec_with(self.0, &mut ()) } else { minicbor::to_vec(self.0) };
+        *self.2.borrow_mut() = Some(r.map_err(|x| eclass(&x).to_string()));
+        e.u8(2)?;
+        Ok(())
+    }
+}
+impl ValVisitor for ToVec {
+    type Out = String;
+    fn visit<T: minicbor::Encode<()>>(self, x: T) -> String {
+        match self.history {
+            1 => {
+                let _ = minicbor::to_vec((2u8, GivesUp));
+                let cell = std::cell::RefCell::new(5u8);
+                let g = cell.borrow_mut();
+                let _ = minicbor::to_vec_with([&cell, &cell], &mut ());
+                drop(g);
+            }
+            2 => { let _ = minicbor::to_vec(vec![0xABCDu16; 40000]); }
+            _ => {}
+        }
+        let r = if self.history == 3 {
+            let n = Nested(&x, self.with, std::cell::RefCell::new(None));
+            let outer = minicbor::to_vec(&n);
+            if outer.as_deref().ok() != Some(&[0x82, 1, 2][..]) { return "err outer-encoding-differs".into() }
+            n.2.into_inner().unwrap_or(Err("not-called".into()))
+        } else if self.with {
+            minicbor::to_vec_with(&x, &mut ()).map_err(|e| eclass(&e).to_string())
+        } else {
+            minicbor::to_vec(&x).map_err(|e| eclass(&e).to_string())
+        };
+        match r { Ok(v) => line("ok".into(), v.len(), &v, true), Err(c) => line(format!("err {}", c), 0, &[], true) }
+    }
+}
+
+/// the value syntax: `u64:<n>` `i64:<n>` `str:<hex>` `bytes:<hex>` (ByteVec) `vecu16:<a,b,…|->`
+/// `optu32:<n|none>` `tuple:<u8>,<hex>,<0|1>` ((u8, String, bool)) `mapu8:<k=v,…|->` (BTreeMap<u8, u16>).
+fn with_value<V: ValVisitor>(v: &str, vis: V) -> Option<V::Out> {
+    fn go<V: ValVisitor, T: minicbor::Encode<()>>(w: V, x: T) -> Option<V::Out> { Some(w.visit(x)) }
+    let w = vis;
     let (t, a) = v.split_once(':')?;
     match t {
         "u64" => go(w, a.parse::<u64>().ok()?),
@@ -200,6 +262,11 @@ fn run_kind(kind: &str, cap: usize, call: &Call) -> Option<String> {
         "carray" => {
             macro_rules! arr { ($($n:literal)*) => { match cap { $($n => carray::<$n>(call),)* _ => None } } }
             arr!(0 1 2 3 4 5 6 7 8 9 10 11 12 13 14 15 16 17 18 19 20 21 22 23 24 25 26 27 28 29 30 31 32 33 34 35 36 37 38 39 40)
+        }
+        "tovec" | "tovecw" | "tovech" | "tovecwh" | "tovecb" | "tovecn" | "tovecwn" => {
+            let Call::Val(v) = call else { return None };
+            let history = if kind.ends_with('h') { 1 } else if kind.ends_with('b') { 2 } else if kind.ends_with('n') { 3 } else { 0 };
+            with_value(v, ToVec { history, with: kind.starts_with("tovecw") })
         }
         "vec" => {
             let (st, v) = drive(Vec::new(), call)?;
